@@ -39,7 +39,24 @@ pub fn shape2(input: &[u8]) -> String {
 }
 
 pub fn judge(input: &Vec<u8>, st: &mut Stats) -> Verdict {
-    judge_slice(input, st)
+    judge_slice(input, st)?;
+    // a well-formed v2 header is the same header through the auto-detecting entry point (the route a server uses)
+    if let V2Ref::Accept { len, .. } = v2_ref(input) {
+        match imp::auto(input) {
+            Ok(ppp::HeaderResult::V2(Ok(h))) if h.header.len() == len && h.header.as_ref() == &input[..len] => {}
+            Err(_) => {}
+            Ok(other) => {
+                return Err(Fail::new(
+                    "auto-route-differs",
+                    shape2(input),
+                    "HeaderResult::parse",
+                    format!("V2(Ok) with the first {} bytes as the header", len),
+                    imp::short(&format!("{:?}", other)),
+                ))
+            }
+        }
+    }
+    Ok(())
 }
 
 pub fn judge_slice(input: &[u8], st: &mut Stats) -> Verdict {
